@@ -20,7 +20,7 @@ CHECKS = {
     "C04": (A, "4.4", "differential monitor (same seeded time-scripted scenario with and without spoofed requests; victim-visible observables compared) + offline history monitors for routing by tunnel address, slot takeover and expiry over adversarial multi-session histories",
             "held on every executed pair and history: every request naming the victim's userid from a foreign address refused and without effect on the packets delivered to the victim, its session row, its transfer state and the server's tun writes; packets for address A delivered only to the logged-in holder of A; no VACK for a slot with an accepted message < 60 s earlier; no service after > 60 s of silence",
             "observables are compared at a granularity insensitive to when a datagram wakes the server inside its 20 ms send-real-soon window; behaviour at exactly 60 s is not asserted; a correct raw login from another address legitimately rebinds"),
-    "C05": (A, "4.5", "ASan/UBSan inside the real iodined + watchdog + health probe under structure-aware hostile datagram generators, never-ending fragment streams, exhausted slot pool and failing tun reads",
+    "C05": (A, "4.5", "ASan/UBSan inside the real iodined + watchdog + health probe under structure-aware hostile datagram generators, never-ending fragment streams, exhausted slot pool and failing tun reads, plus ordinary multi-session/tunnel traffic; a share of the scenarios is repeated with a non-sanitized build under valgrind memcheck (uninitialised values)",
             "no sanitizer report, exit or stall on any executed hostile input sequence (8 generator classes x 11 pre-attack session states x server options), and a session established before the attack still moved a frame each way afterwards",
             "a clean sanitizer run is not memory safety (intra-object / non-adjacent overflows invisible); only executed paths are judged; GCC-defined signed '<<' (shift-base) is not counted as UB"),
     "C08": (B, "4.8", "real client name builders -> strict name checker -> real server dispatcher in one process (statics reached by #include), over the full (L, domain length, codec) grid",
@@ -29,7 +29,7 @@ CHECKS = {
     "C09": (B, "4.9", "real server reply writer -> real client reply reader in one process, every payload length, prefix/monotonicity/floor oracle plus a committed table of lengths known to fit each answer format, ASan on exact-size buffers",
             "held on every executed (query type, codec, name, buffer size, length, content) case: every length 2..4096 in the thorough tier",
             "payload contents are 5 styles; exact set judged per content style"),
-    "C06": (A, "4.6", "ASan/UBSan inside the real iodine client + watchdog + tun-silence monitor, against a model server that turns hostile at a chosen handshake step, hostile tunnel-phase answers, and an on-path spoofer next to the real server",
+    "C06": (A, "4.6", "ASan/UBSan inside the real iodine client + watchdog + tun-silence monitor, against a model server that turns hostile at a chosen handshake step, hostile tunnel-phase answers, and an on-path spoofer next to the real server (DNS and raw mode), plus ordinary tunnel traffic; a share of the scenarios is repeated with a non-sanitized build under valgrind memcheck (uninitialised values)",
             "no sanitizer report, signal or reproduced stall on any executed reply sequence (11 handshake steps x 17 hostile classes x query types x downstream codecs x once/repeated/sticky); packets planted in answers with a non-recent id or foreign first character never reached the client's tun",
             "a clean sanitizer run is not memory safety; an ordinary client exit is correct; GCC-defined signed '<<' (shift-base) is not counted as UB"),
     "C07": (B, "4.7", "sanitizer-instrumented unit driver with round-trip / alphabet / capacity oracle over enumerated inputs",
